@@ -238,3 +238,276 @@ class AnchoredOrder(EnumContract):
 
 
 REGISTRY.append(AnchoredOrder())
+
+
+# =======================================================================================
+# C07 lemma (tier P): the anchoring theorem over the collator's sort keys
+
+
+class AnchoringLemma(Contract):
+    """The anchored collators sort (position, rel, idx) triples: base element e ->
+    (pos(e), 0, idx(e)), subtotal s -> (-1, 0, neg) top / (MAX, 0, neg) bottom or stale /
+    (pos(anchor), 1, neg) with neg = definition index - S < 0.  For *all* sizes: elements
+    keep position order, a subtotal follows its anchor and precedes the next element, top /
+    bottom groups bracket all elements, equal anchors keep definition order.  (The key
+    structure itself is checked against the real code in the bounded enumeration.)"""
+
+    name = "collator:lemma.anchoring-over-sort-keys"
+    props = ("C07",)
+
+    def run(self, B, cfg):
+        import z3
+        from pvc.core import SInt
+
+        MAX = B.integer("MAXSIZE")
+        n = B.size("n")
+        S = B.size("S", lo=1)
+        # two arbitrary base elements and two arbitrary subtotals
+        px, py, pa = B.integer("pos_x", 0, n), B.integer("pos_y", 0, n), B.integer("pos_a", 0, n)
+        ix, iy = B.integer("idx_x", 0, n), B.integer("idx_y", 0, n)
+        ds, dt = B.integer("def_s", 0, S), B.integer("def_t", 0, S)
+        B.c.assume(B.np.__dict__ and True)
+
+        def lt(k1, k2):
+            (a1, b1, c1), (a2, b2, c2) = k1, k2
+            return B.bor(a1 < a2, B.band(a1 == a2, B.bor(b1 < b2, B.band(b1 == b2, c1 < c2))))
+
+        big = MAX > n  # sys.maxsize exceeds any position
+        ex, ey = (px, 0, ix), (py, 0, iy)
+        ea = (pa, 0, B.integer("idx_a", 0, n))
+        s_after_a = (pa, 1, ds - S)
+        t_after_a = (pa, 1, dt - S)
+        s_top, s_bot = (-1, 0, ds - S), (MAX, 0, ds - S)
+        B.check("elements-by-position", B.bor(B.bnot(px < py), lt(ex, ey)))
+        B.check("subtotal-after-its-anchor", lt(ea, s_after_a))
+        B.check("subtotal-before-next-element", B.bor(B.bnot(py > pa), lt(s_after_a, ey)))
+        B.check("subtotal-not-before-earlier-element", B.bor(B.bnot(py < pa), lt(ey, s_after_a)))
+        B.check("top-before-every-element", lt(s_top, ex))
+        B.check("bottom-after-every-element", B.bor(B.bnot(big), lt(ex, s_bot)))
+        B.check("bottom-after-anchored", B.bor(B.bnot(big), lt(t_after_a, s_bot)))
+        B.check("same-anchor-keeps-definition-order", B.bor(B.bnot(ds < dt), lt(s_after_a, t_after_a)))
+        B.check("same-anchor-keeps-definition-order(top)", B.bor(B.bnot(ds < dt), lt((-1, 0, ds - S), (-1, 0, dt - S))))
+        B.check("same-anchor-keeps-definition-order(bottom)", B.bor(B.bnot(ds < dt), lt((MAX, 0, ds - S), (MAX, 0, dt - S))))
+
+
+REGISTRY.append(AnchoringLemma())
+
+
+# =======================================================================================
+# C08 sort-by-value (tier E)
+
+
+def gen_sort_case(rnd):
+    case = gen_case(rnd)
+    case["explicit"] = None
+    n = len(case["cats"])
+    ids = [c["id"] for c in case["cats"]]
+    pool = ids + [99]
+    vals = [0.0, 1.0, 1.0, 2.0, 3.0, float("nan")]
+    case["sort"] = dict(
+        kind=rnd.choice(["opposing_element", "opposing_element", "opposing_insertion", "marginal", "label"]),
+        direction=rnd.choice([None, "descending", "ascending"]),
+        top=[rnd.choice(pool) for _ in range(rnd.choice([0, 0, 1, 2]))],
+        bottom=[rnd.choice(pool) for _ in range(rnd.choice([0, 0, 1, 2]))],
+        element_id=rnd.choice([1, 2, 2, 77]),
+        insertion_id=rnd.choice([1, 1, 55]),
+        measure=rnd.choice(["count_weighted", "col_percent", "bogus_measure", "mean"]),
+        marginal=rnd.choice(["unweighted_base", "scale_mean", "bogus_marginal"]),
+    )
+    case["el_values"] = [rnd.choice(vals) for _ in range(n)]
+    case["sub_values"] = [rnd.choice(vals) for _ in range(4)]
+    case["labels"] = [rnd.choice(["b", "a", "c", "a"]) for _ in range(n)]
+    return case
+
+
+def _nan(x):
+    return isinstance(x, float) and x != x
+
+
+class SortByValueOrder(EnumContract):
+    name = "collator:sort-by-value display order (SortByValueCollator + _Sort*Helper classes, rows and columns)"
+    props = ("C08", "C09", "C05")
+    bound = "<= 4 categories, <= 3 insertions, fixed top/bottom lists <= 2 entries incl. repeats/stale ids, values from {0,1,2,3,NaN} with ties; seeded sample"
+    clauses = ("no-duplicates", "group-structure", "body-monotone", "subtotals-monotone", "visible-set", "fallback", "columns-twin")
+
+    def cases(self, cfg, seed, thorough):
+        rnd = random.Random(2000 + seed)
+        for _ in range(40000 if thorough else 5000):
+            yield gen_sort_case(rnd)
+
+    def _build(self, case, axis):
+        import numpy as np
+        from cr.cube.dimension import Dimension
+        from cr.cube.enums import DIMENSION_TYPE as DT
+
+        s = case["sort"]
+        dim = build_dimension(case)
+        tr = dict(dim._unshimmed_dimension_transforms_dict)
+        order = {"type": s["kind"], "fixed": {"top": list(s["top"]), "bottom": list(s["bottom"])}}
+        if s["direction"] is not None:
+            order["direction"] = s["direction"]
+        if s["kind"] == "opposing_element":
+            order.update(element_id=s["element_id"], measure=s["measure"])
+        elif s["kind"] == "opposing_insertion":
+            order.update(insertion_id=s["insertion_id"], measure=s["measure"])
+        elif s["kind"] == "marginal":
+            order.update(marginal=s["marginal"])
+        tr["order"] = order
+        # labels as sort values for 'label' sorting
+        if s["kind"] == "label":
+            tr["elements"] = dict(tr.get("elements", {}))
+            for c, lab in zip(valid_cats(case), case["labels"]):
+                e = dict(tr["elements"].get(str(c["id"]), {}))
+                e["name"] = lab
+                tr["elements"][str(c["id"])] = e
+        dim = Dimension(dim._unshimmed_dimension_dict, DT.CAT, tr)
+        # opposing dimension: two elements (ids 1, 2), one subtotal with id 1
+        opp_dd = {
+            "type": {"class": "categorical", "categories": [dict(id=1, name="o1", missing=False), dict(id=2, name="o2", missing=False)]},
+            "references": {"alias": "o", "name": "O"},
+        }
+        opp_tr = {"insertions": [{"function": "subtotal", "name": "os", "anchor": "top", "args": [1], "id": 1}]}
+        if case["opp_prune"] is not None:
+            opp_tr["prune"] = case["opp_prune"]
+        opp = Dimension(opp_dd, DT.CAT, opp_tr)
+        nvalid = len(valid_cats(case))
+        nsub = len(dim.subtotals)
+        ev = np.array(case["el_values"][:nvalid], dtype=float)
+        sv = np.array(case["sub_values"][:nsub], dtype=float)
+        # measure blocks: the sort column is opposing element id 2 (index 1) / insertion 0
+        if axis == 0:
+            b00 = np.column_stack([np.full(nvalid, 9.0), ev]) if nvalid else np.zeros((0, 2))
+            b10 = np.column_stack([np.full(nsub, 9.0), sv]) if nsub else np.zeros((0, 2))
+            b01 = ev.reshape(nvalid, 1)
+            b11 = sv.reshape(nsub, 1)
+        else:
+            b00 = np.vstack([np.full(nvalid, 9.0), ev]) if nvalid else np.zeros((2, 0))
+            b01 = np.vstack([np.full(nsub, 9.0), sv]) if nsub else np.zeros((2, 0))
+            b10 = ev.reshape(1, nvalid)
+            b11 = sv.reshape(1, nsub)
+        blocks = [[b00, b01], [b10, b11]]
+        meas = types.SimpleNamespace(blocks=blocks)
+        marg = types.SimpleNamespace(blocks=[ev, sv])
+        own_mask = np.array(case["empty"][:nvalid] + [False] * max(0, nvalid - len(case["empty"])), dtype=bool)
+        opp_mask = np.array([True, True] if case["opp_all_empty"] else [True, False], dtype=bool)
+
+        class Som:
+            pass
+
+        som = Som()
+        som.rows_pruning_mask = own_mask if axis == 0 else opp_mask
+        som.columns_pruning_mask = opp_mask if axis == 0 else own_mask
+        som.weighted_counts = meas
+        som.column_proportions = meas
+        som.rows_unweighted_base = marg
+        som.rows_scale_mean = marg
+        # `means` absent from the response: the real factory raises ValueError
+        type(som).means = property(lambda self: (_ for _ in ()).throw(ValueError("cube-result does not contain cube-means measure")))
+        dims = (dim, opp) if axis == 0 else (opp, dim)
+        return dims, som, dim
+
+    def _resolvable(self, case, axis):
+        s = case["sort"]
+        if s["kind"] == "label":
+            return True
+        if s["kind"] == "marginal":
+            return s["marginal"] != "bogus_marginal" if axis == 0 else None
+        if s["measure"] in ("bogus_measure", "mean"):
+            return False
+        if s["kind"] == "opposing_element":
+            return s["element_id"] in (1, 2)
+        return s["insertion_id"] == 1
+
+    def check_case(self, case, cfg):
+        from cr.cube.matrix.assembler import _BaseOrderHelper
+        from cr.cube.enums import ORDER_FORMAT
+
+        bad = []
+        s = case["sort"]
+        results = []
+        for axis in (0, 1):
+            if s["kind"] == "marginal" and axis == 1:
+                continue  # sort-by-marginal exists for rows only
+            dims, som, dim = self._build(case, axis)
+            fn = _BaseOrderHelper.row_display_order if axis == 0 else _BaseOrderHelper.column_display_order
+            got = [int(i) for i in fn(dims, som, ORDER_FORMAT.SIGNED_INDEXES)]
+            results.append(got)
+            tag = "" if axis == 0 else ":columns"
+            if len(set(got)) != len(got):
+                bad.append("no-duplicates" + tag)
+            resolvable = self._resolvable(case, axis)
+            nvalid = len(valid_cats(case))
+            S = len(dim.subtotals)
+            hid = hidden_set(case)
+            visible_els = [k for k in range(nvalid) if k not in hid]
+            subs_visible = not (case["opp_prune"] is True and case["opp_all_empty"])
+            want_set = set(visible_els) | (set(range(-S, 0)) if subs_visible else set())
+            if set(got) != want_set:
+                bad.append("visible-set" + tag)
+            if not resolvable:
+                # fallback: anchored payload order
+                if got != oracle_order(dict(case, explicit=None)):
+                    bad.append("fallback" + tag)
+                continue
+            if s["kind"] == "opposing_element" and s["element_id"] == 1:
+                ev = [9.0] * nvalid
+                sv = [9.0] * S
+            else:
+                ev = case["el_values"][:nvalid] if s["kind"] != "label" else case["labels"][:nvalid]
+                sv = case["sub_values"][:S] if s["kind"] != "label" else ["s%d" % k for k in range(S)]
+                if s["kind"] == "label":
+                    sv = [x.label for x in dim.subtotals]
+            desc = s["direction"] != "ascending"
+            ids = [c["id"] for c in valid_cats(case)]
+
+            def first_mentions(lst, exclude=()):
+                out = []
+                for i in lst:
+                    if i in ids and ids.index(i) not in out and ids.index(i) not in exclude:
+                        out.append(ids.index(i))
+                return out
+
+            top = first_mentions(s["top"])
+            bottom = first_mentions(s["bottom"], exclude=top)
+            subs = [g for g in got if g < 0]
+            els = [g for g in got if g >= 0]
+            # group structure: subtotals first when descending, last when ascending
+            pos_sub = [i for i, g in enumerate(got) if g < 0]
+            pos_el = [i for i, g in enumerate(got) if g >= 0]
+            if pos_sub and pos_el:
+                ok = max(pos_sub) < min(pos_el) if desc else min(pos_sub) > max(pos_el)
+                if not ok:
+                    bad.append("group-structure" + tag)
+            vt = [e for e in top if e not in hid]
+            vb = [e for e in bottom if e not in hid]
+            uniq = []
+            for e in els:
+                if e not in uniq:
+                    uniq.append(e)
+            if uniq[: len(vt)] != vt or (vb and uniq[len(uniq) - len(vb):] != vb):
+                bad.append("group-structure" + tag)
+            body = [e for e in uniq if e not in vt and e not in vb]
+            if not self._monotone(body, ev, desc):
+                bad.append("body-monotone" + tag)
+            if not self._monotone([g + S for g in subs], sv, desc):
+                bad.append("subtotals-monotone" + tag)
+        if len(results) == 2 and results[0] != results[1]:
+            bad.append("columns-twin")
+        return sorted(set(bad))
+
+    @staticmethod
+    def _monotone(seq, vals, desc):
+        """non-NaN block monotone in the requested direction, then NaN block in payload order"""
+        nn = [k for k in seq if not _nan(vals[k])]
+        na = [k for k in seq if _nan(vals[k])]
+        if seq != nn + na:
+            return False
+        if na != sorted(na):
+            return False
+        for a, b in zip(nn, nn[1:]):
+            if (vals[a] < vals[b]) if desc else (vals[a] > vals[b]):
+                return False
+        return True
+
+
+REGISTRY.append(SortByValueOrder())
